@@ -5,7 +5,11 @@ Engine E3 (net).  Two real BinaryBoxProtocol instances joined by a net.Link.
 * "wire" runs: the sender is handed a tape-chosen sequence of boxes: valid ones
   (1..255-byte keys, 0..65535-byte values, boundary sizes favoured, occasionally
   the empty box or many keys), boxes that cannot be represented (empty / 256+
-  byte / str / int key; 65536+ byte / str / int / None / list value), and
+  byte / str / int key; 65536+ byte / str / int / None / list value), boxes
+  with a BUFFER value (not a bytes object, but exposing bytes through the buffer
+  protocol: bytearray, memoryview of bytes, array('B') - and, knob
+  WIDE_BUFFER_WEIGHT, arrays / memoryviews of 2/4/8-byte items, whose len()
+  counts items, incl. item counts that fit 16 bits while the bytes do not), and
   boxes written by the independent reference serializer (models/ampwire.py) with
   the pairs in tape-chosen order.  Everything the sender wrote is then delivered
   to the receiver in tape-chosen pieces (net.cut with the length prefixes as
@@ -23,7 +27,16 @@ Engine E3 (net).  Two real BinaryBoxProtocol instances joined by a net.Link.
   northern or southern, with values to the minute on either side of a switch;
   local mean time - an offset with seconds - before a year; or plainly fixed),
   so that one argument object serializes, one after the other, values that
-  share a tzinfo object and differ in offset.  In a share of the rounds
+  share a tzinfo object and differ in offset.  Text values (Unicode, and the
+  Unicode elements/members of lists) are drawn per character from plain
+  characters, from the code points that codecs / normalisers / line splitters /
+  strip() / case mapping single out (U+FEFF and U+FFFE, U+FFFD, plane-final
+  noncharacters, the edges of the UTF-8 length classes and of the surrogate gap,
+  C1 controls, U+2028/2029, no-break and zero-width spaces, a bidi override, ...)
+  and from all Unicode scalar values - in first, last and inner position; String
+  values likewise start/end, in a share, with byte sequences that have a meaning
+  to codecs (the UTF-8/16/32 byte order marks, overlong NUL, blanks, CR LF);
+  Path values are text-mode or (a share) bytes-mode FilePaths.  In a share of the rounds
   some of the values on the wire are MALFORMED: a well-formed encoding with its
   tail cut, cut anywhere, a lone byte, bytes appended, one bit flipped, emptied,
   garbage, the key missing, or - for ListOf/AmpList - the same damage inside one
@@ -32,16 +45,21 @@ Engine E3 (net).  Two real BinaryBoxProtocol instances joined by a net.Link.
 
 Oracle: received boxes == valid boxes sent, in order (a prefix of them after
 every delivery); an unrepresentable box raises from sendBox and writes nothing;
+a buffer value is either refused (nothing written) or reaches the wire as one
+well-formed box carrying exactly the buffer's bytes;
 the sender's bytes parse, with the reference parser, to exactly the valid boxes;
 every well-formed argument value - whatever the same argument object was handed
 before, in the same box or in an earlier one - decodes to the encoded value
 (NaN ~ NaN; DateTime exact for whole-minute offsets, local fields equal and
-offset within a minute otherwise).
+offset within a minute otherwise; a FilePath up to its bytes/text mode, which
+the wire does not carry).
 """
+import array
 import datetime
 import decimal
 import math
 import struct
+import sys
 
 from twisted.protocols import amp
 from twisted.python import filepath
@@ -57,22 +75,29 @@ TECHNIQUE = ("deterministic simulation: seeded box/argument grammar sent by one 
 QUICK_RUNS = 45000
 TWIN_P = 0.08   # this share of the runs drives two independent instances of the scenario one after the other (detsim.runner._run_scenario)
 BATCH = 100
-# Known finding (empty key accepted by AmpBox.serialize): weight of that item among
-# the unrepresentable kinds (the others have weight 8 each).
+# Genuine defect of the tree as first examined (empty key accepted by AmpBox.serialize), REPAIRED in /repo 58434a7: weight of that
+# item among the unrepresentable kinds (the others have weight 8 each; 0 only for dev-time comparison).
 EMPTY_KEY_WEIGHT = 8
 COMPONENTS = {
     "real": ["twisted.protocols.amp.AmpBox.serialize", "twisted.protocols.amp.BinaryBoxProtocol (sendBox, proto_init/key/value)",
              "twisted.protocols.basic.Int16StringReceiver/StatefulStringProtocol", "amp.Argument subclasses toBox/fromBox"],
     "stub": ["TCP transport and delivery segmentation (detsim.net.Link / cut)", "box receiver (recorder)"],
 }
-RULE = ("run = 1..5 boxes (valid / unrepresentable / reference-serialized) or 1..5 boxes of the same 1..4 typed argument "
+RULE = ("run = 1..5 boxes (valid / unrepresentable / buffer-valued / reference-serialized) or 1..5 boxes of the same 1..4 typed argument "
         "objects (fresh values per box; in a share of the boxes some values malformed/truncated, not judged themselves), sent "
         "through a real BinaryBoxProtocol and delivered to another in tape-chosen pieces; DateTime values share the run's 1..3 "
-        "zone tzinfo objects whose offset depends on the datetime (daylight-saving rule / local mean time) besides fixed offsets; non-trivial = the wire was cut at "
+        "zone tzinfo objects whose offset depends on the datetime (daylight-saving rule / local mean time) besides fixed offsets; "
+        "text values mix plain characters with codec-/normaliser-significant code points (byte order mark, noncharacters, UTF-8 "
+        "length-class edges, separators ...) and arbitrary scalar values at either end and inside; non-trivial = the wire was cut at "
         "least once and at least one box arrived")
 ASSUMPTIONS = [
     "integers are kept below 2**8000 (CPython's int<->str digit limit is an interpreter setting, not AMP's)",
-    "Unicode values contain no lone surrogates; Path values are text-mode absolute FilePaths; DateTime years 2..9998",
+    "Unicode values contain no lone surrogates (every other Unicode scalar value may occur anywhere in a text); DateTime years 2..9998",
+    "Path values are absolute FilePaths, text-mode or bytes-mode; the mode is not carried by the wire (a bytes-mode path decodes "
+    "to the text-mode FilePath of the same name), so paths of different modes are compared by their text form; bytes-mode paths "
+    "are only drawn where the file-system encoding is UTF-8",
+    "a value that is not a bytes object but exposes bytes through the buffer protocol may be refused or sent; only 'sent but not "
+    "as one well-formed box of exactly those bytes' is a violation (the statement: refused INSTEAD OF corrupting the stream)",
     "float equality is == or both NaN (NaN payload bits are not part of the textual wire form)",
     "zone tzinfo objects give every wall-clock time exactly one offset (a pure function of the datetime's fields, fold ignored; "
     "total offset strictly within a day), so equality with the decoded fixed-offset value is ordinary aware-datetime equality",
@@ -157,6 +182,44 @@ def gen_bad_box(sim):
     return kind, box
 
 
+# Values that are not bytes objects but expose bytes through the buffer protocol.  With one-byte items (bytearray, a
+# memoryview of bytes, array('B')) len() is the byte count; with wider items (array('H'/'I'/'d'), a memoryview of one)
+# len() counts ITEMS.  The statement wants a non-bytes value refused "instead of corrupting the stream"; whether the
+# harmless one-byte-item ones are refused is not judged - but whatever sendBox accepts must reach the wire as ONE
+# well-formed box carrying exactly the buffer's bytes.
+BYTE_BUFFER_KINDS = ["bytearray", "byte-view", "byte-array"]
+WIDE_BUFFER_KINDS = ["wide-array", "wide-view"]
+# Weight of each wide-item kind (the one-byte-item kinds have weight 4 each).  GENUINE DEFECT of the tree as first examined,
+# REPAIRED in /repo fe06844 (AmpBox.serialize wrote len(value) - the ITEM count - as the length prefix of a wide-item buffer and
+# then all its bytes: signature C30:buffer-value-corrupts-stream:wide-array / wide-view).  The precondition is in the runs with the
+# same weight as the one-byte-item kinds (4); 0 keeps it out and is only for dev-time comparison.
+WIDE_BUFFER_WEIGHT = 4
+
+
+def gen_buffer_value(sim):
+    """-> (kind, value object, the bytes it exposes)."""
+    kind = sim.draw_weighted([(k, 4) for k in BYTE_BUFFER_KINDS] + [(k, WIDE_BUFFER_WEIGHT) for k in WIDE_BUFFER_KINDS], "bufkind")
+    if kind in BYTE_BUFFER_KINDS:
+        data = gen_value(sim, False)
+        if sim.draw_bool(0.12, "buffer-overlong"):
+            # more bytes than a box value holds: this one has to be refused
+            data = sim.draw_blob(sim.draw_choice([65536, sim.draw_int(65537, 70000, "buflen")], "buflenkind"))
+            sim.probe("buffer_value_overlong")
+        if kind == "bytearray":
+            return kind, bytearray(data), data
+        if kind == "byte-view":
+            return kind, memoryview(data), data
+        return kind, array.array("B", data), data
+    code = sim.draw_choice("HId", "typecode")
+    # item count: small; or few enough items for a 16-bit count while the bytes outgrow a box value
+    n = sim.draw_weighted([(sim.draw_int(1, 20, "nitems"), 6), (0, 1), (sim.draw_int(33000, 65535, "nitems-long"), 1)], "nitemskind")
+    arr = array.array(code)
+    arr.frombytes(sim.draw_blob(n * arr.itemsize))
+    if n > 20:
+        sim.probe("buffer_value_items_fit_bytes_do_not")
+    return kind, (arr if kind == "wide-array" else memoryview(arr)), arr.tobytes()
+
+
 def deliver_all(sim, link, recv, expected, ctx, cap=5000):
     """Move everything A wrote onto the wire and deliver it to B in pieces."""
     if link.a.out:
@@ -194,7 +257,7 @@ def run_wire(sim, link, a, b, rb):
     big_budget = [1]
     log = []
     for _ in range(nitems):
-        what = sim.draw_weighted([("valid", 10), ("bad", 3), ("reference", 3)], "item")
+        what = sim.draw_weighted([("valid", 10), ("bad", 3), ("reference", 3), ("buffer", 2)], "item")
         if what == "valid":
             d = gen_valid_box(sim, big_budget[0] > 0)
             if any(len(v) > 60000 for v in d.values()):
@@ -210,6 +273,36 @@ def run_wire(sim, link, a, b, rb):
             sim.event("reference-box", brief([d]))
             log.append(("reference", brief([d])))
             link.a.write(ampwire.serialize(pairs))
+            expected.append(d)
+        elif what == "buffer":
+            d = gen_valid_box(sim, False)
+            key = gen_key(sim)
+            kind, value, payload = gen_buffer_value(sim)
+            d[key] = payload
+            box = amp.AmpBox(d)
+            box[key] = value
+            before = len(link.a.written)
+            sim.event("send-buffer-value", kind, len(payload), brief([d]))
+            log.append(("buffer", kind, len(value), brief([d])))
+            sim.probe("buffer_value_" + kind)
+            try:
+                a.sendBox(box)
+                raised = None
+            except Exception as e:  # a refusal is always acceptable
+                raised = e
+            new = bytes(link.a.written[before:])
+            if raised is not None:
+                sim.probe("buffer_value_refused")
+                sim.check("refusal-wrote-bytes", not new, kind, lambda: "sendBox raised %r but wrote %d bytes" % (raised, len(new)))
+                continue
+            sim.probe("buffer_value_accepted")
+            try:
+                pboxes, _, consumed = ampwire.parse(new)
+            except ValueError:
+                pboxes, consumed = None, 0
+            sim.check("buffer-value-corrupts-stream", len(payload) <= ampwire.MAX_VALUE and pboxes == [d] and consumed == len(new), kind,
+                      lambda: "sendBox accepted a %s value of %d items / %d bytes under key %r and wrote %r.. (%d bytes), which is not "
+                              "the one box %s" % (kind, len(value), len(payload), key, new[:40], len(new), brief([d])))
             expected.append(d)
         else:
             kind, box = gen_bad_box(sim)
@@ -243,8 +336,55 @@ def run_wire(sim, link, a, b, rb):
 UNI = ["a", "Z", "0", " ", "\x00", "é", "€", "\U0001f600", "́", "퟿", "", "\n", "\\"]
 
 
+# Code points that text-handling layers (codecs, normalisers, line splitters, strip(), case mapping, terminals) single
+# out: the byte order mark / zero width no-break space and its byte-swapped twin, the replacement character, the last
+# code points of the planes, the edges of the 1/2/3/4-byte UTF-8 ranges and of the surrogate gap, C1 controls and the
+# Unicode line/paragraph separators, no-break / zero-width spaces, a bidi override, private use, characters whose
+# case mapping changes their length.  To a text argument every one of them is an ordinary character, wherever it stands.
+UNI_SPECIAL = ["\ufeff", "\ufffe", "\ufffd", "\uffff", "\U0010ffff", "\x7f", "\x80", "\u07ff", "\u0800", "\ue000",
+               "\U00010000", "\x85", "\u2028", "\u2029", "\xa0", "\u200b", "\u202e", "\r", "\t", "\x0b", "\x1a",
+               "\u0130", "\xdf", "\ufb01", "\u3000"]
+
+
+def gen_char(sim):
+    kind = sim.draw_weighted([("plain", 12), ("special", 5), ("any", 1)], "chkind")
+    if kind == "plain":
+        return sim.draw_choice(UNI, "ch")
+    if kind == "special":
+        return sim.draw_choice(UNI_SPECIAL, "chspecial")
+    # any Unicode scalar value (the surrogate gap D800..DFFF is skipped: ASSUMPTIONS)
+    cp = sim.draw_int(0, 0x10FFFF - 0x800, "codepoint")
+    sim.probe("text_any_code_point")
+    return chr(cp if cp < 0xD800 else cp + 0x800)
+
+
 def gen_text(sim, maxlen=8):
-    return "".join(sim.draw_choice(UNI, "ch") for _ in range(sim.draw_int(0, maxlen, "tlen")))
+    text = "".join(gen_char(sim) for _ in range(sim.draw_int(0, maxlen, "tlen")))
+    if text:
+        if text[0] in UNI_SPECIAL:
+            sim.probe("text_special_char_first")
+        if text[-1] in UNI_SPECIAL:
+            sim.probe("text_special_char_last")
+        if any(c in UNI_SPECIAL for c in text[1:-1]):
+            sim.probe("text_special_char_inside")
+    return text
+
+
+# byte sequences that codecs and text layers give a meaning to (UTF-8 / UTF-16 / UTF-32 byte order marks, an overlong
+# NUL, a lone continuation byte, blanks, line ends); to a String argument they are payload like any other
+BYTES_SPECIAL = [b"\xef\xbb\xbf", b"\xff\xfe", b"\xfe\xff", b"\x00\x00\xfe\xff", b"\xc0\x80", b"\x80", b" ", b"\t", b"\r\n", b"\x1a"]
+
+
+def gen_bytes(sim):
+    body = sim.draw_bytes(sim.draw_int(0, 12, "slen"), b"ab\x00\xff\r\n")
+    where = sim.draw_weighted([("none", 8), ("first", 2), ("last", 1), ("both", 1)], "bspecial")
+    if where in ("first", "both"):
+        body = sim.draw_choice(BYTES_SPECIAL, "bfirst") + body
+    if where in ("last", "both"):
+        body = body + sim.draw_choice(BYTES_SPECIAL, "blast")
+    if where != "none":
+        sim.probe("bytes_special_sequence_at_an_end")
+    return body
 
 
 def gen_int(sim):
@@ -403,10 +543,19 @@ def gen_datetime(sim, pool=None):
     return datetime.datetime(year, month, day, h, m, s, micro, tz)
 
 
+PATH_SEGS = ["tmp", "a", "b c", "\xe9t\xe9", "x.txt", "\u65e5\u672c", "..a", "A", "\ufeffx", " ", "a\u2028b", "\U0001f600"]
+# a bytes-mode FilePath names the file by its bytes in the file-system encoding; the names used here are the UTF-8
+# bytes of the segments, so bytes-mode values are only drawn where that is the file-system encoding
+FS_UTF8 = sys.getfilesystemencoding().lower().replace("-", "") == "utf8"
+
+
 def gen_path(sim):
-    segs = [sim.draw_choice(["tmp", "a", "b c", "été", "x.txt", "日本", "..a", "A"], "seg")
-            for _ in range(sim.draw_int(0, 4, "nseg"))]
-    return filepath.FilePath("/" + "/".join(segs))
+    segs = [sim.draw_choice(PATH_SEGS, "seg") for _ in range(sim.draw_int(0, 4, "nseg"))]
+    text = "/" + "/".join(segs)
+    if sim.draw_bool(0.15, "bytes-mode-path") and FS_UTF8:
+        sim.probe("path_bytes_mode")
+        return filepath.FilePath(text.encode("utf-8"))
+    return filepath.FilePath(text)
 
 
 SCALARS = ["Integer", "String", "Unicode", "Float", "Boolean", "Decimal", "DateTime", "Path"]
@@ -423,7 +572,7 @@ def gen_type(sim, depth, in_list=False, pool=None):
     if k == "Integer":
         return amp.Integer(), k, gen_int
     if k == "String":
-        return amp.String(), k, lambda s: s.draw_bytes(s.draw_int(0, 12, "slen"), b"ab\x00\xff\r\n")
+        return amp.String(), k, gen_bytes
     if k == "Unicode":
         return amp.Unicode(), k, gen_text
     if k == "Float":
@@ -490,6 +639,9 @@ def equal(a, b):
         return sorted(a) == sorted(b) and all(equal(a[k], b[k]) for k in a)
     if isinstance(a, bool) != isinstance(b, bool):
         return False
+    if isinstance(a, filepath.FilePath) and isinstance(b, filepath.FilePath) and type(a.path) is not type(b.path):
+        # the wire carries the path as text; whether the FilePath object is in bytes or text mode is not carried
+        return a.asTextMode().path == b.asTextMode().path
     return a == b
 
 
@@ -719,5 +871,14 @@ MUTANTS = [
     "caught (argument-equal:DateTime/ListOf/AmpList)",
     "DateTime.toString: 'offset = i.utcoffset()' -> 'i.replace(hour=12).utcoffset()' (offset decided per date) / "
     "'i.replace(minute=0).utcoffset()' (per hour) : both caught (argument-equal:DateTime/ListOf/AmpList; values to the minute around a switch)",
-    "candidate FIX AmpBox.serialize: 'if len(k) == 0: raise ValueError(...)' before the TooLong check : check passes with EMPTY_KEY_WEIGHT=8 (24000 runs, exit 0)",
+    "Unicode.fromString: decode('utf-8') -> decode('utf-8-sig') (a leading U+FEFF dropped) : caught (argument-equal:Unicode/ListOf/AmpList)",
+    "Unicode.fromString: '.decode(\"utf-8\")' -> '.decode(\"utf-8\").strip()' : caught (argument-equal:Unicode/ListOf/AmpList)",
+    "Unicode.fromString: result passed through unicodedata.normalize('NFC', ...) : caught (argument-equal:Unicode/ListOf/AmpList)",
+    "Unicode.fromString: '.decode(\"utf-8\", \"replace\")' : not caught, as it must be (identical on every well-formed value; malformed ones are not judged)",
+    "Path.toString: 'inObject.asTextMode().path' -> 'inObject.path' : caught (argument-encode-raised:Path, bytes-mode paths)",
+    "TREE AS FIRST EXAMINED (fe06844 reverted) with WIDE_BUFFER_WEIGHT=4: AmpBox.serialize wrote the ITEM count of array('H'/'I'/'d') / memoryview-of-array "
+    "values as the length prefix : C30:buffer-value-corrupts-stream:wide-array / wide-view (genuine defect, REPAIRED in /repo fe06844; witness "
+    "AmpBox({b'k': array.array('H',[1,2,3])}).serialize() wrote length 3 in front of 6 bytes; knob now at 4, 0 only for dev-time comparison); "
+    "repair: 'if not isinstance(v, bytes): v = memoryview(v).tobytes()' before the length checks : check passes with the knob at 4",
+    "repair in /repo 58434a7, AmpBox.serialize: 'if len(k) == 0: raise ValueError(...)' before the TooLong check : check passes with EMPTY_KEY_WEIGHT=8 (24000 runs, exit 0)",
 ]
